@@ -486,13 +486,17 @@ impl Recv {
         frame: frame::Headers,
         stream: &mut store::Ptr,
     ) -> Result<(), Error> {
-        // Transition the state
-        stream.state.recv_close()?;
-
+        // The body is complete only if it had the declared length. Check this
+        // before the state records a clean end of the stream: if the reset
+        // below cannot be carried out (the connection is failed instead), the
+        // stream must not be left looking as if it had ended properly.
         if stream.ensure_content_length_zero().is_err() {
             proto_err!(stream: "recv_trailers: content-length is not zero; stream={:?};",  stream.id);
             return Err(Error::library_reset(stream.id, Reason::PROTOCOL_ERROR));
         }
+
+        // Transition the state
+        stream.state.recv_close()?;
 
         let trailers = frame.into_fields();
 
